@@ -295,6 +295,72 @@ theorem decode_one (P : Prims) (k : DirKeys) (hm : MacLen P) (hx : StreamOK P k)
   have r1 := runs_step P k s1 (by rw [d1]; exact r2)
   simpa using r1
 
+/-- an honest ciphertext (ANY legal shape, header-only packets included: the MAC is checked
+    whether or not a body follows) under ANOTHER tag is reported: `ErrInvalidPacket`, nothing delivered -/
+theorem bad_tag_rejected (P : Prims) (k : DirKeys) (hx : StreamOK P k) {o flag padLen : Nat} {data : Bytes} (tag : Bytes)
+    (htag : tag.length = macLength) (hbad : tag ≠ mac128 P k.macKey (pktCipher P k o flag data padLen))
+    (mb : Bytes) (hsz : data.length + padLen ≤ maxPayloadLength) (hfl : flag < 256) (rest : Bytes) :
+    ∃ s', s'.failed = true ∧
+      (rxMachine P k).Runs (idleAt o mb) (tag ++ pktCipher P k o flag data padLen ++ rest) [.err] s' rest := by
+  have hpl := c_pay_lt
+  obtain ⟨hf0, hf2, hf4⟩ := hdrPlain_fields flag data.length padLen (by omega) hfl
+  have hhl := hdrPlain_length flag data.length padLen
+  -- the ciphertext in two pieces
+  have hct : pktCipher P k o flag data padLen
+      = xorAt P k o (hdrPlain flag data.length padLen)
+        ++ xorAt P k (o + pktHdrLength) (data ++ Bytes.zeros padLen) := by
+    rw [pktCipher, pktPlain_eq, hx.split, hhl]
+  have hbl : (data ++ Bytes.zeros padLen).length = data.length + padLen := by simp [Bytes.zeros]
+  -- phase 1: the MAC
+  have s1 : rxStep P k (idleAt o mb) (tag ++ pktCipher P k o flag data padLen ++ rest)
+      = some (⟨some tag, none, 0, 0, o, mb, false⟩, [], macLength) := by
+    have hlen : ¬ (tag ++ pktCipher P k o flag data padLen ++ rest).length < macLength := by
+      simp only [List.length_append, htag]; omega
+    simp only [rxStep, idleAt, Bool.false_eq_true, ↓reduceIte, hlen]
+    simp only [List.append_assoc, List.take_left' htag]
+  have d1 : (tag ++ pktCipher P k o flag data padLen ++ rest).drop macLength
+      = xorAt P k o (hdrPlain flag data.length padLen)
+        ++ (xorAt P k (o + pktHdrLength) (data ++ Bytes.zeros padLen) ++ rest) := by
+    rw [List.append_assoc, List.drop_left' htag, hct, List.append_assoc]
+  -- phase 2: the header
+  have hhc : (xorAt P k o (hdrPlain flag data.length padLen)).length = pktHdrLength := by rw [hx.len, hhl]
+  have s2 : rxStep P k ⟨some tag, none, 0, 0, o, mb, false⟩
+      (xorAt P k o (hdrPlain flag data.length padLen)
+        ++ (xorAt P k (o + pktHdrLength) (data ++ Bytes.zeros padLen) ++ rest))
+      = some (⟨some tag,
+                some (hdrPlain flag data.length padLen), data.length + padLen,
+                data.length, o + pktHdrLength,
+                xorAt P k o (hdrPlain flag data.length padLen), false⟩, [], pktHdrLength) := by
+    have hlen : ¬ (xorAt P k o (hdrPlain flag data.length padLen)
+        ++ (xorAt P k (o + pktHdrLength) (data ++ Bytes.zeros padLen) ++ rest)).length < pktHdrLength := by
+      simp only [List.length_append, hhc]; omega
+    simp only [rxStep, Bool.false_eq_true, ↓reduceIte, hlen, List.take_left' hhc, hx.invol, hf0, hf2]
+    rw [if_neg (by omega)]
+  have d2 : (xorAt P k o (hdrPlain flag data.length padLen)
+        ++ (xorAt P k (o + pktHdrLength) (data ++ Bytes.zeros padLen) ++ rest)).drop pktHdrLength
+      = xorAt P k (o + pktHdrLength) (data ++ Bytes.zeros padLen) ++ rest := List.drop_left' hhc
+  -- phase 3: the body
+  have hbc : (xorAt P k (o + pktHdrLength) (data ++ Bytes.zeros padLen)).length = data.length + padLen := by
+    rw [hx.len, hbl]
+  have s3 : rxStep P k ⟨some tag,
+                some (hdrPlain flag data.length padLen), data.length + padLen,
+                data.length, o + pktHdrLength,
+                xorAt P k o (hdrPlain flag data.length padLen), false⟩
+      (xorAt P k (o + pktHdrLength) (data ++ Bytes.zeros padLen) ++ rest)
+      = some (⟨some tag, some (hdrPlain flag data.length padLen), data.length + padLen, data.length,
+                o + pktHdrLength + (data.length + padLen), pktCipher P k o flag data padLen, true⟩,
+              [.err], data.length + padLen) := by
+    have hlen : ¬ (xorAt P k (o + pktHdrLength) (data ++ Bytes.zeros padLen) ++ rest).length < data.length + padLen := by
+      simp only [List.length_append, hbc]; omega
+    simp only [rxStep, Bool.false_eq_true, ↓reduceIte, hlen, List.take_left' hbc, ← hct]
+    rw [if_pos (fun e => hbad e.symm)]
+  have d3 : (xorAt P k (o + pktHdrLength) (data ++ Bytes.zeros padLen) ++ rest).drop (data.length + padLen) = rest :=
+    List.drop_left' hbc
+  have r3 := runs_step P k (os := []) s3 (by rw [d3]; exact Machine.Runs.refl _ _)
+  have r2 := runs_step P k s2 (by rw [d2]; exact r3)
+  have r1 := runs_step P k s1 (by rw [d1]; exact r2)
+  exact ⟨_, rfl, by simpa using r1⟩
+
 /-- honest sender: the wire bytes of a list of packets from keystream offset `o` on -/
 def encodeAll (P : Prims) (k : DirKeys) : Nat → List (Nat × Bytes × Nat) → Bytes
   | _, [] => []
@@ -347,6 +413,10 @@ theorem idle_quiescent (P : Prims) (k : DirKeys) (o : Nat) (mb : Bytes) :
   omega
 
 /-! ## the first packet read from an arbitrary buffer -/
+
+theorem failed_quiescent (P : Prims) (k : DirKeys) {s : Rx} (hf : s.failed = true) (b : Bytes) :
+    (rxMachine P k).Quiescent s b := by
+  simp [Machine.Quiescent, rxMachine, rxStep, hf]
 
 theorem failed_runs (P : Prims) (k : DirKeys) {s : Rx} {b : Bytes} {os : List Out} {s' : Rx} {r : Bytes}
     (hf : s.failed = true) (h : (rxMachine P k).Runs s b os s' r) : os = [] := by
